@@ -23,7 +23,8 @@ pub fn to_listing(
 
             let mut data = vec![];
             for offset in &offsets {
-                for segment in ctx.segments().values() {
+                // Look at the segment the bytes were emitted to: other segments may cover the same addresses
+                if let Some(segment) = ctx.segments().get(&offset.segment) {
                     // The source map holds target addresses ('pc = ...'), the segment's range is where the bytes are stored
                     let stored_at = (offset.pc.start as i64).wrapping_sub(segment.target_offset()) as usize;
                     let stored_end = stored_at.saturating_add(offset.pc.end - offset.pc.start);
@@ -37,7 +38,6 @@ pub fn to_listing(
                             start += 1;
                             pc += 1;
                         }
-                        break;
                     }
                 }
             }
